@@ -612,7 +612,7 @@ func (e *env) genPQValues(kind string, n int) gcol {
 	return g
 }
 
-var pqTimeKinds = []string{"ts:ms", "ts:us", "ts:ns", "ts:s", "i64", "i64", "i64", "i32", "u64", "u32", "f64", "f32", "str", "str", "bin", "i16", "i8", "u8", "u16", "bool", "date32", "fsb"}
+var pqTimeKinds = []string{"ts:ms", "ts:us", "ts:ns", "ts:s", "i64", "i64", "i64", "i32", "u64", "u32", "f64", "f32", "str", "str", "bin", "i16", "i8", "u8", "u16", "bool", "date32"}
 
 // genPQTime: the time column in a (kind, format) combination with known intended micros.
 func (e *env) genPQTime(p *pqCase, n int) gcol {
